@@ -2,6 +2,7 @@ import Nsl.Model.Wasm
 import Nsl.Model.WasmEval
 import Nsl.Model.VM
 import Nsl.Proofs.WasmEval
+import Nsl.Proofs.WasmInt
 import Nsl.Props.C07
 
 /-!
@@ -75,6 +76,32 @@ theorem C06_agree_ring_invoke {F : Type} (O : F32Ops F) (P : List Func) (globals
   rw [hfind] at hvm
   exact C06_agree_ring O P m idx f hgen hf hring args hlen _ fuel g g' v as hvm
 #print axioms C06_agree_ring_invoke
+
+/-! ## 2b. Agreement on signed-integer code including `/` and comparisons, inside the i32 domain -/
+
+/-- `runR` is `VM.run` with one check added after every step — every argument and value reference of the frame is a
+signed 32-bit number (`frameS32`) — and nothing else: a finished range-checked run is a finished run of the VM with
+the same result.  "The VM run stays inside the i32 domain" is the hypothesis `runR … = .done …`. -/
+theorem C06_range_checked_run_is_run (Pg : Program) (fuel : Nat) (f : Func) (pc : Nat) (fr : VM.Frame)
+    (g g' : VM.Globals) (v : Val) (as : List Val) (h : runR Pg fuel f pc fr g = .done v g' as) :
+    VM.run Pg fuel f pc fr g = .done v g' as :=
+  runR_run fuel h
+#print axioms C06_range_checked_run_is_run
+
+/-- For a function with `int` parameters and result whose body is straight-line code over `+ - * / == < >` on
+arguments, earlier results and integer constants, with loads and stores of arguments (`intFunc`), and ALL arguments
+that are signed 32-bit numbers: whenever the VM run stays inside the signed 32-bit domain and returns `v`, the
+generated WebAssembly function returns `v` (as the i32 `v mod 2^32`).  In particular it does not trap: a division by
+zero makes the VM fail, and `-2^31 / -1` leaves the domain. -/
+theorem C06_agree_int {F : Type} (O : F32Ops F) (P : List Func) (m : WModule) (idx : Nat)
+    (f : Func) (hgen : genWasm P = .ok m) (hf : P[idx]? = some f) (hint : intFunc f = true)
+    (args : List Int) (hlen : args.length = f.params.length) (hargs : ∀ a ∈ args, inS32 a)
+    (Pg : Program) (fuel : Nat) (g g' : VM.Globals) (v : Int) (as : List Val)
+    (hvm : runR Pg fuel f 0 { args := args.map Val.int } g = .done (.int v) g' as) :
+    VM.run Pg fuel f 0 { args := args.map Val.int } g = .done (.int v) g' as ∧
+    evalFunc O m idx (args.map fun a => WVal.i32 (wrap a)) = some [WVal.i32 (wrap v)] :=
+  ⟨runR_run fuel hvm, agree_int_with O hgen hf hint args hlen hargs Pg fuel g g' v as hvm⟩
+#print axioms C06_agree_int
 
 /-! ## 3. Partial: single operations including division and comparisons -/
 
@@ -176,6 +203,54 @@ theorem exRing_vm_big :
 
 example : evalFunc O0 exRingModule 0 [.i32 100000, .i32 100000] = some [.i32 102760305] ∧
     wrap 99998000149998600049 = 102760305 := by decide +kernel
+
+/-- `int q(int a, int b) { a = a / b; return (a < b) + (a == 7); }` after lowering. -/
+def exSInt : Func := ⟨"q", [("a", .sc .int), ("b", .sc .int)], .sc .int,
+  [.label 0,
+   .load 1 (.sc .int) .arg (.index 0), .load 2 (.sc .int) .arg (.index 1),
+   .bin 3 (.s .div) (.sc .int) (.ref 1) (.ref 2),
+   .store .arg (.index 0) (.ref 3),
+   .load 4 (.sc .int) .arg (.index 0), .load 5 (.sc .int) .arg (.index 1),
+   .bin 6 (.s .lt) (.sc .int) (.ref 4) (.ref 5),
+   .load 7 (.sc .int) .arg (.index 0),
+   .bin 8 (.s .eq) (.sc .int) (.ref 7) (.cInt 7),
+   .bin 9 (.s .add) (.sc .int) (.ref 6) (.ref 8),
+   .ret (some (.ref 9))]⟩
+
+example : intFunc exSInt = true := by decide +kernel
+
+def exSIntModule : WModule where
+  types := [⟨[.i32, .i32], [.i32]⟩]
+  funcs := [0]
+  tables := [0]
+  exports := [⟨"q", 0⟩]
+  codes :=
+    [⟨[(10, .i32)],
+      [.localGet 0, .localSet 2, .localGet 1, .localSet 3,
+       .localGet 2, .localGet 3, .num .i32DivS, .localSet 4,
+       .localGet 4, .localSet 0,
+       .localGet 0, .localSet 6, .localGet 1, .localSet 7,
+       .localGet 6, .localGet 7, .num .i32LtS, .localSet 8,
+       .localGet 0, .localSet 9,
+       .localGet 9, .i32Const 7, .num .i32Eq, .localSet 10,
+       .localGet 8, .localGet 10, .num .i32Add, .localSet 11,
+       .localGet 11, .ret]⟩]
+
+theorem exSInt_gen : genWasm [exSInt] = .ok exSIntModule := by decide +kernel
+
+/-- The range-checked VM on `(-15, 2)`: `-15 / 2 = -7` (truncation), `(-7 < 2) + (-7 == 7) = 1`. -/
+theorem exSInt_vm : runR ⟨[exSInt], []⟩ 20 exSInt 0 { args := [-15, 2].map Val.int } [] =
+    .done (.int 1) [] [.int (-7), .int 2] := by rfl
+
+example : evalFunc O0 exSIntModule 0 ([-15, 2].map fun a => WVal.i32 (wrap a)) =
+    some [WVal.i32 (wrap 1)] :=
+  (C06_agree_int O0 [exSInt] exSIntModule 0 exSInt exSInt_gen rfl (by decide +kernel) [-15, 2] rfl
+    (by intro a ha; simp at ha; rcases ha with rfl | rfl <;> (unfold inS32; omega))
+    ⟨[exSInt], []⟩ 20 [] [] 1 _ exSInt_vm).2
+
+/-- Outside the domain the hypothesis fails, as it must: `-2^31 / -1`. -/
+example : runR ⟨[exSInt], []⟩ 20 exSInt 0 { args := [-2147483648, -1].map Val.int } [] =
+    .fail (.unsupported "outside-i32") := by rfl
 
 /-- Refusal on a concrete program: a branch, a cast, a vector operation, a `mod`. -/
 example : (match genWasm [⟨"h", [("a", .sc .int)], .sc .int,
